@@ -8,6 +8,7 @@ import (
 	"fmt"
 	"math/rand"
 	"net/http"
+	"net/url"
 	"sort"
 	"strings"
 	"time"
@@ -148,7 +149,22 @@ func mutate(sealed string, r *rand.Rand) (string, string) {
 	}
 	b := append([]byte{}, raw...)
 	note := ""
-	switch r.Intn(6) {
+	switch r.Intn(8) {
+	case 6:
+		// the head of the STRING replaced, the tail (where the nonce lives) untouched
+		k := 1 + r.Intn(12)
+		al := "ABCDEFGHIJKLMNOPQRSTUVWXYZabcdefghijklmnopqrstuvwxyz0123456789-_"
+		h := []byte(sealed)
+		for i := 0; i < k && i < len(h)-30; i++ {
+			c := al[r.Intn(64)]
+			if c == h[i] {
+				c = al[(r.Intn(63)+1+strings.IndexByte(al, h[i]))%64]
+			}
+			h[i] = c
+		}
+		return string(h), fmt.Sprintf("first %d characters replaced", k)
+	case 7:
+		return []string{"AAAA", "abcdefgh", "____"}[r.Intn(3)] + sealed, "characters prepended"
 	case 0:
 		i := r.Intn(len(b))
 		b[i] ^= 1 << uint(r.Intn(8))
@@ -308,7 +324,15 @@ func (w *World) RunCell(n int, cell Cell, r *rand.Rand) Line {
 			}
 			pay("code", v)
 		case "mutated":
-			v, note := mutate(a.SealCode(sess), r)
+			genuine := a.SealCode(sess)
+			v, note := mutate(genuine, r)
+			if r.Intn(2) == 0 {
+				// the genuine code has just been redeemed by the real proxy (same authenticator): a corrupted copy
+				// of it is no more genuine for that
+				form := url.Values{"client_id": {a.Opts.ProxyID}, "client_secret": {a.Opts.ProxySecret}, "code": {genuine}}
+				warm := world.Do(a.Handler, world.NewReq("POST", a.Opts.Host, a.Path("redeem"), http.Header{"Content-Type": {"application/x-www-form-urlencoded"}}, nil, form.Encode()))
+				note += fmt.Sprintf("; the genuine code was redeemed first (status %d)", warm.Status)
+			}
 			conc.Note = note
 			pay("code", v)
 		case "random":
